@@ -16,6 +16,7 @@ CONSTANTS
  Probes = TRUE
  Exts = {FALSE}
  KeepSlots = FALSE
+ TarUnverified = FALSE
 INIT Init
 NEXT Next
 VIEW View
